@@ -1,6 +1,7 @@
 import TTModel.Proto
 import TTModel.C08_Coalescent
 import TTModel.C08_Linear
+import TTModel.C08_Soft
 /-!
 C08 driver.  Request: `<op> <F|Q> <numbers> | <numbers> | <numbers>`  (groups separated by `|`).
 `F`: numbers are 16-hex-digit IEEE bit patterns, the model runs at `Float`;
@@ -13,6 +14,7 @@ C08 driver.  Request: `<op> <F|Q> <numbers> | <numbers> | <numbers>`  (groups se
   skyride F thetas | heights                  skyrideI X thetas | heights
   skygrid F thetas | heights | grid           skygridI X thetas | heights | grid
   exp     F theta g | heights
+  soft    F tau | thetas | heights | grid     (SoftPiecewiseConstantCoalescentGrid with a temperature)
   linear  F thetas | heights | grid          (PiecewiseLinearCoalescentGrid; `linearpops`: sizes per sorted event)
 -/
 open TT TT.Proto TT.C08
@@ -52,6 +54,10 @@ def handleF (op : String) (g : List (List Float)) : Option String :=
   | "exp", [[θ, gr], h] => if oddLen h then some (floatBits (exponentialLogProb θ gr h)) else none
   | "linear", [θ, h, grid] =>
       if oddLen h && θ.length == grid.length + 1 then some (floatBits (linearLogProb θ grid h)) else none
+  | "soft", [[τ], θ, h, grid] =>
+      if oddLen h && θ.length == grid.length + 1 then some (floatBits (softLogProb τ θ grid h)) else none
+  | "softstat", [[τ], h, grid] => if oddLen h then some (floatBits (softStat τ grid h)) else none
+  | "softweights", [[τ, t], grid] => some (" ".intercalate ((pieceWeights τ grid t).map floatBits))
   | "linearpops", [θ, h, grid] =>
       if oddLen h && θ.length == grid.length + 1 then
         some (" ".intercalate ((popSizes θ grid (linearSorted h grid)).map floatBits))
